@@ -208,6 +208,14 @@ def run(ctx):
             by_pf[pf].append(t)
             ctx.case(("track", variant, pf, tau, fam, j))
             j += 1
+    # the boundary tau = 1 (hard update): the target equals the online network after every update step and must keep those weights
+    # between the delayed learners' policy steps
+    for variant, pf in (("DQN", 1), ("DDPG", 2), ("TD3", 2), ("TD3", 3), ("MATD3", 2)):
+        ops = bm.script(random.Random(ctx.seed * 1009 + j), pf, length=13 if quick else 22)
+        t = bm.run_track(variant, "vector", ops, pf=pf, tau=1.0, seed=ctx.seed * 17 + j)
+        by_pf[pf].append(t)
+        ctx.case(("track", variant, pf, 1.0, "vector", j))
+        j += 1
     allt = [t for ts in by_pf.values() for t in ts]
     ctx.sample({"track_cfg": {k_: allt[9]["cfg"][k_] for k_ in ("algo", "pf", "tau", "targets")},
                 "events": [(e["op"], e["a"] or e["c"], e["lc"], e["cls"]) for e in allt[9]["ev"]]})
